@@ -6,6 +6,7 @@ CONSTANTS
   MaxCrashes = 0
   MaxRuns = 1000
   Tolerated <- NoneTolerated
+  FnOut = FALSE
   Gen = "last"
 CONSTRAINTS Mark NotYetAccepted
 POSTCONDITION Accepted
